@@ -615,6 +615,10 @@ func genLoopMagnet(r *Rng, idx int, tier string, step func(op string) string) {
 	}
 	if seeded {
 		step(fmt.Sprintf("gate kind=%s on=1", r.Pick2(l.readGate(), l.readGate(), "open")))
+	} else if r.Chance(25) {
+		// nothing on disk, but the allocation that follows the metadata is held: have-all / bitfield / unchoke
+		// of the peers arrive between "metadata complete" and "allocation done"
+		step("gate kind=open on=1")
 	}
 	isize := atoi(obsKV(o)["isize"])
 	step("start")
@@ -815,10 +819,10 @@ func genLoopMagnet(r *Rng, idx int, tier string, step func(op string) string) {
 			}
 			p := live[r.Intn(len(live))]
 			i := r.Intn(l.numPieces() + 1)
-			switch r.Intn(9) {
+			switch r.Intn(11) {
 			case 0:
 				do(fmt.Sprintf("msg p=%d t=have i=%d", p.k, i))
-			case 1:
+			case 1, 9, 10:
 				do(fmt.Sprintf("msg p=%d t=haveall", p.k))
 			case 2:
 				do(fmt.Sprintf("msg p=%d t=bitfield bits=%s", p.k, strings.Repeat("1", l.numPieces())))
